@@ -63,5 +63,21 @@ def reset_db(alias):
     # the SQLite backend refuses to close ':memory:' databases; go through
     # the base class so the database really is discarded
     BaseDatabaseWrapper.close(conn)
+    if conn.connection is not None or conn.in_atomic_block:
+        # an earlier case died inside an atomic block (e.g. an exception in
+        # a schema editor's __exit__): close() then only marks the wrapper;
+        # discard the transaction state by hand so the next case starts clean
+        try:
+            if conn.connection is not None:
+                conn.connection.close()
+        except Exception:
+            pass
+        conn.connection = None
+        conn.in_atomic_block = False
+        conn.closed_in_transaction = False
+        conn.needs_rollback = False
+        conn.savepoint_ids = []
+        conn.atomic_blocks = []
+        conn.run_on_commit = []
     conn.ensure_connection()
     return conn
